@@ -62,6 +62,26 @@ def handle (op : String) (args : List String) : Option (String × String) :=
   | "i.nth_root", [a, n] => do
     let a ← parseBigInt a; let n ← parseNat n
     pure (both a.mag.length (fun S => sid (bigintNthRootD P S a n)) (fun S => si (bigintNthRoot S a.val n)), si (oRootI a.val n))
+  -- api-coverage: the inherent forwarders `BigUint::{sqrt,cbrt,nth_root}`, `BigInt::{sqrt,cbrt,nth_root}`
+  -- (`Roots::sqrt(self)` …) execute the `Roots` impl, so they share its (digit-level) model
+  | "u.sqrt_m", [a] => do
+    let a ← parseLimbs a
+    pure (both a.length (fun S => sud (sqrtD P S a)) (fun S => su (sqrtG S (val a))), su (oRootU (val a) 2))
+  | "u.cbrt_m", [a] => do
+    let a ← parseLimbs a
+    pure (both a.length (fun S => sud (cbrtD P S a)) (fun S => su (cbrtG S (val a))), su (oRootU (val a) 3))
+  | "u.nth_root_m", [a, n] => do
+    let a ← parseLimbs a; let n ← parseNat n
+    pure (both a.length (fun S => sud (nthRootD P S a n)) (fun S => su (nthRootG S (val a) n)), su (oRootU (val a) n))
+  | "i.sqrt_m", [a] => do
+    let a ← parseBigInt a
+    pure (both a.mag.length (fun S => sid (bigintSqrtD P S a)) (fun S => si (bigintSqrt S a.val)), si (oRootI a.val 2))
+  | "i.cbrt_m", [a] => do
+    let a ← parseBigInt a
+    pure (both a.mag.length (fun S => sid (bigintCbrtD P S a)) (fun S => si (bigintCbrt S a.val)), si (oRootI a.val 3))
+  | "i.nth_root_m", [a, n] => do
+    let a ← parseBigInt a; let n ← parseNat n
+    pure (both a.mag.length (fun S => sid (bigintNthRootD P S a n)) (fun S => si (bigintNthRoot S a.val n)), si (oRootI a.val n))
   | _, _ => none
 
 end NB.Drv.C11
